@@ -11,9 +11,9 @@ open Verif.Spec.SvgPath Verif.Spec.SvgHazard Verif.Model.SvgPath Verif.Proofs.Sv
 /-- a command kind with exactly its number of coordinates -/
 def Shaped (k : Kind) (cs : List Coord) : Prop := cs.length = k.arity ∧ k ≠ .Z
 
-theorem stageC_shaped (p a pc : Pt) (rx ry : Rat) (single : Bool) (k : Kind) (cs : List Coord) (h : Shaped k cs) :
-    Shaped (stageC p a pc rx ry single k cs).2.1 (stageC p a pc rx ry single k cs).2.2 ∧
-    ((stageC p a pc rx ry single k cs).2.1 = .M → k = .M) := by
+theorem stageC_shaped (p a pc : Pt) (rx ry : Rat) (single kS : Bool) (k : Kind) (cs : List Coord) (h : Shaped k cs) :
+    Shaped (stageC p a pc rx ry single kS k cs).2.1 (stageC p a pc rx ry single kS k cs).2.2 ∧
+    ((stageC p a pc rx ry single kS k cs).2.1 = .M → k = .M) := by
   obtain ⟨hl, hz⟩ := h
   cases k <;> simp only [Kind.arity] at hl
   case Z => exact absurd rfl hz
@@ -29,9 +29,9 @@ theorem stageC_shaped (p a pc : Pt) (rx ry : Rat) (single : Bool) (k : Kind) (cs
     all_goals simp [Shaped, Kind.arity]
   all_goals simp [stageC, Shaped, hl, Kind.arity]
 
-theorem stageQ_shaped (p a pq : Pt) (rx ry : Rat) (single : Bool) (k : Kind) (cs : List Coord) (h : Shaped k cs) :
-    Shaped (stageQ p a pq rx ry single k cs).2.1 (stageQ p a pq rx ry single k cs).2.2 ∧
-    ((stageQ p a pq rx ry single k cs).2.1 = .M → k = .M) := by
+theorem stageQ_shaped (p a pq : Pt) (rx ry : Rat) (single kT : Bool) (k : Kind) (cs : List Coord) (h : Shaped k cs) :
+    Shaped (stageQ p a pq rx ry single kT k cs).2.1 (stageQ p a pq rx ry single kT k cs).2.2 ∧
+    ((stageQ p a pq rx ry single kT k cs).2.1 = .M → k = .M) := by
   obtain ⟨hl, hz⟩ := h
   cases k <;> simp only [Kind.arity] at hl
   case Z => exact absurd rfl hz
@@ -47,8 +47,8 @@ theorem stageQ_shaped (p a pq : Pt) (rx ry : Rat) (single : Bool) (k : Kind) (cs
     all_goals simp [Shaped, Kind.arity]
   all_goals simp [stageQ, Shaped, hl, Kind.arity]
 
-theorem stageL_shaped (p a : Pt) (k : Kind) (cs : List Coord) (h : Shaped k cs) :
-    Shaped (stageL p a k cs).1 (stageL p a k cs).2.1 ∧ ((stageL p a k cs).1 = .M → k = .M) := by
+theorem stageL_shaped (p a : Pt) (kz : Bool) (k : Kind) (cs : List Coord) (h : Shaped k cs) :
+    Shaped (stageL p a kz k cs).1 (stageL p a kz k cs).2.1 ∧ ((stageL p a kz k cs).1 = .M → k = .M) := by
   obtain ⟨hl, hz⟩ := h
   cases k <;> simp only [Kind.arity] at hl
   case Z => exact absurd rfl hz
@@ -59,15 +59,15 @@ theorem stageL_shaped (p a : Pt) (k : Kind) (cs : List Coord) (h : Shaped k cs) 
     all_goals simp [Shaped, Kind.arity]
   all_goals simp [stageL, Shaped, hl, Kind.arity]
 
-theorem rewrite_shaped (st : MSt) (k : Kind) (rel single : Bool) (cs : List Coord) (h : Shaped k cs) :
-    Shaped (rewrite st k rel single cs).k (rewrite st k rel single cs).cs ∧
-    ((rewrite st k rel single cs).k = .M → k = .M) := by
+theorem rewrite_shaped (st : MSt) (k : Kind) (rel single : Bool) (cs : List Coord) (ctx : Ctx) (h : Shaped k cs) :
+    Shaped (rewrite st k rel single cs ctx).k (rewrite st k rel single cs ctx).cs ∧
+    ((rewrite st k rel single cs ctx).k = .M → k = .M) := by
   simp only [rewrite]
   have h1 := stageC_shaped (st.x, st.y) (endPoint st.x st.y (if rel then st.x else 0) (if rel then st.y else 0) k cs)
-    (reflPt st.x st.y st.c) (if rel then st.x else 0) (if rel then st.y else 0) single k cs h
+    (reflPt st.x st.y st.c) (if rel then st.x else 0) (if rel then st.y else 0) single ctx.nextS k cs h
   have h2 := stageQ_shaped (st.x, st.y) (endPoint st.x st.y (if rel then st.x else 0) (if rel then st.y else 0) k cs)
-    (reflPt st.x st.y st.q) (if rel then st.x else 0) (if rel then st.y else 0) single _ _ h1.1
-  have h3 := stageL_shaped (st.x, st.y) (endPoint st.x st.y (if rel then st.x else 0) (if rel then st.y else 0) k cs) _ _ h2.1
+    (reflPt st.x st.y st.q) (if rel then st.x else 0) (if rel then st.y else 0) single ctx.nextT _ _ h1.1
+  have h3 := stageL_shaped (st.x, st.y) (endPoint st.x st.y (if rel then st.x else 0) (if rel then st.y else 0) k cs) ctx.keepZero _ _ h2.1
   exact ⟨h3.1, fun e => h1.2 (h2.2 (h3.2 e))⟩
 
 /-! ## candidates -/
@@ -115,26 +115,22 @@ theorem choose_cases (ps : PState) (a b : OutGroup) : choose ps a b = a ∨ choo
   · exact Or.inr rfl
   · exact Or.inl rfl
 
-theorem groupStep_out (P : NumPr) (st : MSt) (k0 : Kind) (rel first single : Bool) (cs : List Coord) :
-    (groupStep P st k0 rel first single cs).out =
-      if (rewrite st (groupKind k0 first) rel single cs).skip then st.out
-      else choose st.ps
-        (candidates P st (isMoveFirst k0 first) rel (rewrite st (groupKind k0 first) rel single cs)).1
-        (candidates P st (isMoveFirst k0 first) rel (rewrite st (groupKind k0 first) rel single cs)).2 :: st.out := by
+theorem groupStep_out (P : NumPr) (st : MSt) (k0 : Kind) (rel first single : Bool) (cs : List Coord) (ctx : Ctx) :
+    (groupStep P st k0 rel first single cs ctx).2 =
+      if (rewrite st (groupKind k0 first) rel single cs ctx).skip then []
+      else [chosen P st k0 rel first (rewrite st (groupKind k0 first) rel single cs ctx)] := by
   unfold groupStep
-  generalize (rewrite st (groupKind k0 first) rel single cs) = r
-  by_cases h : r.skip = true
-  · simp [h]
-  · simp [h, advance]
+  generalize (rewrite st (groupKind k0 first) rel single cs ctx) = r
+  by_cases h : r.skip = true <;> simp [h]
 
-theorem groupStep_wf (P : NumPr) (st : MSt) (k0 : Kind) (rel first single : Bool) (cs : List Coord)
-    (hs : Shaped (groupKind k0 first) cs) (hout : AllWfG st.out) :
-    AllWfG (groupStep P st k0 rel first single cs).out := by
+theorem groupStep_wf (P : NumPr) (st : MSt) (k0 : Kind) (rel first single : Bool) (cs : List Coord) (ctx : Ctx)
+    (hs : Shaped (groupKind k0 first) cs) :
+    AllWfG (groupStep P st k0 rel first single cs ctx).2 := by
   rw [groupStep_out]
-  obtain ⟨⟨hlen, hz⟩, hM⟩ := rewrite_shaped st (groupKind k0 first) rel single cs hs
-  generalize (rewrite st (groupKind k0 first) rel single cs) = r at hlen hz hM ⊢
+  obtain ⟨⟨hlen, hz⟩, hM⟩ := rewrite_shaped st (groupKind k0 first) rel single cs ctx hs
+  generalize (rewrite st (groupKind k0 first) rel single cs ctx) = r at hlen hz hM ⊢
   by_cases h : r.skip = true
-  · simp only [h, if_true]; exact hout
+  · simp only [h, if_true]; intro g hg; simp at hg
   · simp only [h, Bool.false_eq_true, if_false]
     have hforce : r.k = .M → isMoveFirst k0 first = true := by
       intro e
@@ -142,19 +138,16 @@ theorem groupStep_wf (P : NumPr) (st : MSt) (k0 : Kind) (rel first single : Bool
       unfold groupKind at this
       unfold isMoveFirst
       cases first <;> cases hk : (k0 == Kind.M) <;> simp_all
-    have hg : WfG (choose st.ps (candidates P st (isMoveFirst k0 first) rel r).1
-        (candidates P st (isMoveFirst k0 first) rel r).2) := by
-      rcases choose_cases st.ps (candidates P st (isMoveFirst k0 first) rel r).1
-        (candidates P st (isMoveFirst k0 first) rel r).2 with e | e
-      · rw [e]
-        exact ⟨fun _ => by simp only [candidates, curItems_len]; exact hlen, curItems_ok _ _ _ _, hforce⟩
-      · rw [e]
-        exact ⟨fun _ => by simp only [candidates, altItems_len]; exact hlen, altItems_ok _ _ _ _ _ _, hforce⟩
     intro g hgm
-    simp only [List.mem_cons] at hgm
-    rcases hgm with rfl | h'
-    · exact hg
-    · exact hout g h'
+    simp only [List.mem_cons, List.not_mem_nil, or_false] at hgm
+    subst hgm
+    unfold chosen
+    rcases choose_cases st.ps (candidates P st (isMoveFirst k0 first) rel r).1
+      (candidates P st (isMoveFirst k0 first) rel r).2 with e | e
+    · rw [e]
+      exact ⟨fun _ => by simp only [candidates, curItems_len]; exact hlen, curItems_ok _ _ _ _, hforce⟩
+    · rw [e]
+      exact ⟨fun _ => by simp only [candidates, altItems_len]; exact hlen, altItems_ok _ _ _ _ _ _, hforce⟩
 
 theorem chunks_len (di : Nat) (hdi : 0 < di) : ∀ (f : Nat) (l : List Coord), l.length % di = 0 →
     ∀ c ∈ chunks di f l, c.length = di := by
@@ -177,26 +170,35 @@ theorem chunks_len (di : Nat) (hdi : 0 < di) : ∀ (f : Nat) (l : List Coord), l
         have := Nat.dvd_of_mod_eq_zero hl
         exact Nat.mod_eq_zero_of_dvd (Nat.dvd_sub this (Nat.dvd_refl di))
 
-theorem groupLoop_wf (P : NumPr) (k0 : Kind) (rel single : Bool) (hk0 : k0 ≠ .Z) :
-    ∀ (gs : List (List Coord)) (st : MSt) (first : Bool), (∀ c ∈ gs, c.length = k0.arity) → AllWfG st.out →
-    AllWfG (groupLoop P k0 rel single st first gs).out := by
+theorem allWfG_append {a b : List OutGroup} (ha : AllWfG a) (hb : AllWfG b) : AllWfG (a ++ b) := by
+  intro g hg
+  rcases List.mem_append.1 hg with h | h
+  · exact ha g h
+  · exact hb g h
+
+theorem groupKind_shaped (k0 : Kind) (first : Bool) (g : List Coord) (hk0 : k0 ≠ .Z) (hl : g.length = k0.arity) :
+    Shaped (groupKind k0 first) g := by
+  unfold groupKind
+  cases first <;> cases hk : (k0 == Kind.M)
+  · simp only [Bool.not_false, Bool.true_and, Bool.false_eq_true, if_false]; exact ⟨hl, hk0⟩
+  · have : k0 = .M := by simpa using hk
+    simp only [Bool.not_false, Bool.true_and, if_true]
+    exact ⟨by rw [hl, this]; rfl, by decide⟩
+  · simp only [Bool.not_true, Bool.false_and, Bool.false_eq_true, if_false]; exact ⟨hl, hk0⟩
+  · simp only [Bool.not_true, Bool.false_and, Bool.false_eq_true, if_false]; exact ⟨hl, hk0⟩
+
+theorem groupLoop_wf (P : NumPr) (k0 : Kind) (rel single : Bool) (next : Option Kind) (hk0 : k0 ≠ .Z) :
+    ∀ (gs : List (List Coord)) (st : MSt) (first : Bool), (∀ c ∈ gs, c.length = k0.arity) →
+    AllWfG (groupLoop P k0 rel single next st first gs).2 := by
   intro gs
   induction gs with
-  | nil => intro st first _ h; exact h
+  | nil => intro st first _ g h; simp [groupLoop] at h
   | cons g r ih =>
-    intro st first hlen hout
+    intro st first hlen
     simp only [groupLoop]
-    apply ih _ _ (fun c hc => hlen c (by simp [hc]))
-    apply groupStep_wf P st k0 rel first (first && single) g _ hout
-    have hl := hlen g (by simp)
-    unfold groupKind
-    cases first <;> cases hk : (k0 == Kind.M)
-    · simp only [Bool.not_false, Bool.true_and, Bool.false_eq_true, if_false]; exact ⟨hl, hk0⟩
-    · have : k0 = .M := by simpa using hk
-      simp only [Bool.not_false, Bool.true_and, if_true]
-      exact ⟨by rw [hl, this]; rfl, by decide⟩
-    · simp only [Bool.not_true, Bool.false_and, Bool.false_eq_true, if_false]; exact ⟨hl, hk0⟩
-    · simp only [Bool.not_true, Bool.false_and, Bool.false_eq_true, if_false]; exact ⟨hl, hk0⟩
+    exact allWfG_append
+      (groupStep_wf P st k0 rel first (first && single) g _ (groupKind_shaped k0 first g hk0 (hlen g (by simp))))
+      (ih _ _ (fun c hc => hlen c (by simp [hc])))
 
 theorem instrArity_spec (k : Kind) (n di : Nat) (h : instrArity k n = some di) : di = k.arity ∧ n % di = 0 ∧ k ≠ .Z := by
   cases k <;> simp only [instrArity] at h
@@ -205,39 +207,36 @@ theorem instrArity_spec (k : Kind) (n di : Nat) (h : instrArity k n = some di) :
     | (simp at h; subst h; exact ⟨rfl, Nat.mod_one _, by decide⟩)
     | simp at h
 
-theorem copyInstr_wf (P : NumPr) (st : MSt) (ins : Instr) (hout : AllWfG st.out) : AllWfG (copyInstr P st ins).out := by
+theorem copyInstr_wf (P : NumPr) (st : MSt) (ins : Instr) (next : Option Kind) :
+    AllWfG (copyInstr P st ins next).2 := by
   unfold copyInstr
   simp only
   split
   · split
     · intro g hg
-      simp only [List.mem_cons] at hg
-      rcases hg with rfl | h
-      · exact zGroup_wf
-      · exact hout g h
-    · exact hout
+      simp only [List.mem_cons, List.not_mem_nil, or_false] at hg
+      subst hg; exact zGroup_wf
+    · intro g hg; simp at hg
   · split
-    · exact hout
+    · intro g hg; simp at hg
     · rename_i di hdi
       obtain ⟨h1, h2, h3⟩ := instrArity_spec _ _ _ hdi
-      apply groupLoop_wf P ins.k ins.rel _ h3 _ st true _ hout
+      apply groupLoop_wf P ins.k ins.rel _ next h3 _ st true
       rw [← h1]
       exact chunks_len di (by rw [h1]; exact arity_pos _ h3) _ _ h2
 
-theorem runInstrs_wf (P : NumPr) : ∀ (is : List Instr) (st : MSt), AllWfG st.out → AllWfG (runInstrs P st is).out := by
+theorem runInstrs_wf (P : NumPr) (final : Option Kind) : ∀ (is : List Instr) (st : MSt), AllWfG (runInstrs P final st is).2 := by
   intro is
   induction is with
-  | nil => intro st h; exact h
+  | nil => intro st g h; simp [runInstrs] at h
   | cons i r ih =>
-    intro st h
-    simp only [runInstrs, List.foldl_cons]
-    exact ih _ (copyInstr_wf P st i h)
+    intro st
+    simp only [runInstrs]
+    exact allWfG_append (copyInstr_wf P st i _) (ih _)
 
 /-- every group the model prints is structurally well-formed -/
-theorem groupsOfInstrs_wf (P : NumPr) (is : List Instr) : AllWfG (groupsOfInstrs P is) := by
-  intro g hg
-  unfold groupsOfInstrs at hg
-  exact runInstrs_wf P is {} (by intro g h; simp at h) g (by simpa using hg)
+theorem groupsOfInstrs_wf (P : NumPr) (is : List Instr) (final : Option Kind) : AllWfG (groupsOfInstrs P is final) :=
+  runInstrs_wf P final is {}
 
 /-! ## with a universal shape contract of the number printers every printed number is well-shaped -/
 
@@ -269,62 +268,64 @@ theorem altItems_good (P : NumPr) (ha : ∀ v, goodNum (P.alt v) = true) (k : Ki
 
 def AllGood (out : List OutGroup) : Prop := ∀ g ∈ out, ∀ s, PItem.num s ∈ g.items → goodNum s = true
 
+theorem allGood_append {a b : List OutGroup} (ha : AllGood a) (hb : AllGood b) : AllGood (a ++ b) := by
+  intro g hg
+  rcases List.mem_append.1 hg with h | h
+  · exact ha g h
+  · exact hb g h
+
 theorem groupStep_good (P : NumPr) (hc : ∀ s, goodNum (P.cur s) = true) (ha : ∀ v, goodNum (P.alt v) = true)
-    (st : MSt) (k0 : Kind) (rel first single : Bool) (cs : List Coord) (hout : AllGood st.out) :
-    AllGood (groupStep P st k0 rel first single cs).out := by
+    (st : MSt) (k0 : Kind) (rel first single : Bool) (cs : List Coord) (ctx : Ctx) :
+    AllGood (groupStep P st k0 rel first single cs ctx).2 := by
   rw [groupStep_out]
-  generalize (rewrite st (groupKind k0 first) rel single cs) = r
+  generalize (rewrite st (groupKind k0 first) rel single cs ctx) = r
   by_cases h : r.skip = true
-  · simp only [h, if_true]; exact hout
+  · simp only [h, if_true]; intro g hg; simp at hg
   · simp only [h, Bool.false_eq_true, if_false]
     intro g hgm
-    simp only [List.mem_cons] at hgm
-    rcases hgm with rfl | h'
-    · rcases choose_cases st.ps (candidates P st (isMoveFirst k0 first) rel r).1
-        (candidates P st (isMoveFirst k0 first) rel r).2 with e | e
-      · rw [e]; intro s hs; exact curItems_good P hc _ _ _ s hs
-      · rw [e]; intro s hs; exact altItems_good P ha _ _ _ _ _ s hs
-    · exact hout g h'
+    simp only [List.mem_cons, List.not_mem_nil, or_false] at hgm
+    subst hgm
+    unfold chosen
+    rcases choose_cases st.ps (candidates P st (isMoveFirst k0 first) rel r).1
+      (candidates P st (isMoveFirst k0 first) rel r).2 with e | e
+    · rw [e]; intro s hs; exact curItems_good P hc _ _ _ s hs
+    · rw [e]; intro s hs; exact altItems_good P ha _ _ _ _ _ s hs
 
 theorem groupLoop_good (P : NumPr) (hc : ∀ s, goodNum (P.cur s) = true) (ha : ∀ v, goodNum (P.alt v) = true)
-    (k0 : Kind) (rel single : Bool) :
-    ∀ (gs : List (List Coord)) (st : MSt) (first : Bool), AllGood st.out → AllGood (groupLoop P k0 rel single st first gs).out := by
+    (k0 : Kind) (rel single : Bool) (next : Option Kind) :
+    ∀ (gs : List (List Coord)) (st : MSt) (first : Bool), AllGood (groupLoop P k0 rel single next st first gs).2 := by
   intro gs
   induction gs with
-  | nil => intro st first h; exact h
+  | nil => intro st first g h; simp [groupLoop] at h
   | cons g r ih =>
-    intro st first hout
+    intro st first
     simp only [groupLoop]
-    exact ih _ _ (groupStep_good P hc ha st k0 rel first _ g hout)
+    exact allGood_append (groupStep_good P hc ha st k0 rel first _ g _) (ih _ _)
 
 theorem copyInstr_good (P : NumPr) (hc : ∀ s, goodNum (P.cur s) = true) (ha : ∀ v, goodNum (P.alt v) = true)
-    (st : MSt) (ins : Instr) (hout : AllGood st.out) : AllGood (copyInstr P st ins).out := by
+    (st : MSt) (ins : Instr) (next : Option Kind) : AllGood (copyInstr P st ins next).2 := by
   unfold copyInstr
   simp only
   split
   · split
     · intro g hg
-      simp only [List.mem_cons] at hg
-      rcases hg with rfl | h
-      · intro s hs; simp [zGroup] at hs
-      · exact hout g h
-    · exact hout
+      simp only [List.mem_cons, List.not_mem_nil, or_false] at hg
+      subst hg; intro s hs; simp [zGroup] at hs
+    · intro g hg; simp at hg
   · split
-    · exact hout
-    · exact groupLoop_good P hc ha _ _ _ _ _ _ hout
+    · intro g hg; simp at hg
+    · exact groupLoop_good P hc ha _ _ _ _ _ _ _
 
 theorem printed_good (P : NumPr) (hc : ∀ s, goodNum (P.cur s) = true) (ha : ∀ v, goodNum (P.alt v) = true)
-    (is : List Instr) : AllGood (groupsOfInstrs P is) := by
-  have : ∀ (is : List Instr) (st : MSt), AllGood st.out → AllGood (runInstrs P st is).out := by
+    (is : List Instr) (final : Option Kind) : AllGood (groupsOfInstrs P is final) := by
+  have : ∀ (is : List Instr) (st : MSt), AllGood (runInstrs P final st is).2 := by
     intro is
     induction is with
-    | nil => intro st h; exact h
+    | nil => intro st g h; simp [runInstrs] at h
     | cons i r ih =>
-      intro st h
-      simp only [runInstrs, List.foldl_cons]
-      exact ih _ (copyInstr_good P hc ha st i h)
-  intro g hg
-  unfold groupsOfInstrs at hg
-  exact this is {} (by intro g h; simp at h) g (by simpa using hg)
+      intro st
+      simp only [runInstrs]
+      exact allGood_append (copyInstr_good P hc ha st i _) (ih _)
+  exact this is {}
 
 end Verif.Proofs.SvgModel
